@@ -152,3 +152,12 @@ def r19_3(ctx):
 def run(ctx):
     from runner import collect
     return collect(ctx, r19_1, r19_2, r19_3)
+
+
+THOROUGH_FLOORS = {'E19.2': 8}
+
+
+def run_thorough(ctx):
+    from runner import collect
+    from rules import e2e
+    return collect(ctx, e2e.e19)
